@@ -327,6 +327,8 @@ func mayAuth(c *Conn) bool {
 //@   props C04:post,pre@call
 //@   ensures err == nil && !tagHandlerFailed() ==> __ghost("tagged") == old(__ghost("tagged"))+1
 //@   ensures err == nil ==> __ghost("tagged") >= old(__ghost("tagged"))+1 && __ghost("tagged") <= old(__ghost("tagged"))+2
+//@   props C08:callsite
+//@   callsite Conn.poll(cc *Conn, cmd string) requires (__called("Conn.handleFetch") ==> cmd == "FETCH" || cmd == "UID FETCH") && (__called("Conn.handleStore") ==> cmd == "STORE" || cmd == "UID STORE") && (__called("Conn.handleSearch") ==> cmd == "SEARCH" || cmd == "UID SEARCH")
 //@   props C05:post
 //@   ensures[C05] old(c.state) == imap.ConnStateNotAuthenticated && __called("Decoder.DiscardLine") && !__calledPrefix("Conn.handle") ==> c.state == imap.ConnStateLogout && __called("Conn.Bye")
 
